@@ -88,6 +88,10 @@ STATEMENT_STATUS: Dict[str, str] = {
     "C16_clip_then_paint": "proved",
     "C16_segment_operands": "proved (regenerated do_m do_l do_c do_v do_y append the ISO segment, operands in order)",
     "C16_cm_composes": "proved (regenerated do_cm pre-multiplies: new matrix first, then the old CTM)",
+    "C16_one_shape_per_subpath": "proved (number of shapes with a segment = number of sub-paths with a segment)",
+    "C16_paint_attributes": "proved (every path, ill-formed included: flags, width, dash, colours of the call)",
+    "C16_painted_with_state_in_force": "proved (every painting operator on every interpreter state)",
+    "C16_no_start_no_shape": "proved (a path that does not begin with m paints nothing)",
 }
 
 # --------------------------------------------------------------------------- operators
@@ -803,9 +807,32 @@ def make_wild(rng, case) -> Dict[str, Any]:
             ops[i], ops[j] = ops[j], ops[i]
         else:
             ops.insert(i, [rng.choice(["BX", "EX", "zz", "sc", "SCN", "Q", "h", "l"])])
+    if rng.random() < 0.25:       # a path object whose first construction operator is not m / re
+        ms = [i for i, o in enumerate(ops) if o[0] in ("m", "re")]
+        if ms:
+            i = rng.choice(ms)
+            if rng.random() < 0.5:
+                del ops[i]
+            else:
+                ops[i] = [rng.choice(["l", "h", "c", "v"])] + ops[i][1:]
     c = dict(case)
     c["ops"] = ops
     return c
+
+
+def path_without_m(ops) -> bool:
+    """Some path object's first construction operator is a segment / h (theorem C16_no_start_no_shape)."""
+    fresh = True
+    for o in ops:
+        if o[0] in PAINT or o[0] == "n":
+            fresh = True
+        elif o[0] in ("m", "re"):
+            if len(o) - 1 == NARGS[o[0]] and all(is_num(x) for x in o[1:]):
+                fresh = False
+        elif o[0] in ("l", "c", "v", "y", "h") and fresh:
+            if len(o) - 1 == NARGS[o[0]] and all(is_num(x) for x in o[1:]):
+                return True
+    return False
 
 
 # --------------------------------------------------------------------------- comparison
@@ -1062,6 +1089,8 @@ def check_batch(ctx: C.Ctx, cases: List[Dict[str, Any]], in_domain: bool, seen_s
                  branch="domain" if dom else "wild")
         for k in opnames:
             ctx.branch("op:" + k)
+        if not dom and path_without_m(case["ops"]):
+            ctx.branch("wild:path-without-m")
         for o in case["ops"]:
             if (o[0] in NUM_ARITY or o[0] in ("sc", "scn", "SC", "SCN")) and not all(is_num(x) for x in o[1:]):
                 pos = [i for i, x in enumerate(o[1:]) if not is_num(x)]
